@@ -329,7 +329,7 @@ let () =
           | "EV" :: "CP" :: _t :: n :: _ ->
             t_nb := int_of_string n; t_locked := 0;
             (* (a reordering ends with post_gc, without a GC_END event) *)
-            if !ty.Model.y_ph = Model.PUnlock && not !in_par then yphase step Model.YGcEnd;
+            if !ty.Model.y_ph = Model.PUnlock then yphase step Model.YGcEnd;
             if !ty.Model.y_ph = Model.PIdle then yphase step Model.YPreGc;
             false
           | "EV" :: "CL" :: _t :: _f :: cnt :: _ -> t_locked := !t_locked + int_of_string cnt; false
@@ -411,6 +411,9 @@ let () =
           let ops, res = split_arrow l in
           let toks = split_ws ops in
           if (match toks with "EV" :: _ -> term_event i toks | _ -> false) then ()
+          else if tt && (match toks with ("HANG" | "PANIC" | "CRASH") :: _ -> true | _ -> false) then
+            (* (the overflow guard of `retain` aborts the process once a count has been driven below zero) *)
+            failt i "prop" ("implementation panicked/aborted/hung: " ^ l)
           else
           match toks with
           | [ "SNAP" ] ->
